@@ -97,6 +97,27 @@ Theorem C05_noseg_data_survives :
 Proof. exact noseg_data_read_back. Qed.
 Print Assumptions C05_noseg_data_survives.
 
+(* sections flagged compressed, objects with the (modelled) compression interface: what the writer stores for such
+   a section is the interface's deflate of its data, and what an eager load hands out is the interface's inflate of the
+   stored bytes, followed by the terminator byte - for the interface of the correspondence harness the two cancel *)
+Theorem C05_compressed_section_codec_cancels :
+  forall d, is_bytes d -> map codec_byte (map codec_byte d) = d.
+Proof.
+  intros d H. induction H as [|b t Hb Ht IH]; [reflexivity|]. cbn [map]. rewrite IH. f_equal.
+  unfold codec_byte. rewrite N.lxor_assoc, N.lxor_nilpotent. apply N.lxor_0_r.
+Qed.
+Print Assumptions C05_compressed_section_codec_cancels.
+
+Theorem C05_eager_load_inflates :
+  forall compr s b,
+    is_compressed compr s = true -> s_data s = Some b -> sh_size s <= lenN b ->
+    inflate_step compr false s = Ok (with_data s (Some (map codec_byte (firstnN b (sh_size s)) ++ [0])) (s_data_size s)).
+Proof.
+  intros compr s b Hc Hd Hl. unfold inflate_step. rewrite Hc, Hd. cbn [orb negb].
+  rewrite rd_some by lia. cbn [bind]. unfold sliceN. now rewrite skipnN_0.
+Qed.
+Print Assumptions C05_eager_load_inflates.
+
 Definition ex_s : section :=
   with_entsize (with_addralign (with_size (with_offset (with_flags (with_type (new_section C32) 1) 6) 64) 3) 4) 0.
 Example C05_example :
